@@ -82,7 +82,12 @@ const MANAGERS: [usize; 1] = [M];
 /// addresses that may sign (accounts only: mock_auths re-registers the signer's address)
 const SIGNERS: [usize; 7] = [U1, U2, R1, R2, M, X, ADM];
 const START: u32 = 1000;
-const MAX_TTL: u32 = 2_000_000;
+/// host configurations: (min_temp_entry_ttl, min_persistent_entry_ttl, max_entry_ttl).
+/// A: temporary entries as short-lived as possible, persistent entries / instances outlive every gap;
+/// B: the SDK's default ledger (persistent entries lapse after 4096 ledgers and are auto-restored by the test host)
+const HOST_A: (u32, u32, u32) = (1, 8_000_000, 9_000_000);
+const HOST_B: (u32, u32, u32) = (16, 4096, 6_312_000);
+const LONG_GAPS: [u32; 6] = [20, 100, 17_281, 20_000, 600_000, 4_000_000];
 
 const F_HIT: u32 = 1; const F_BOOM: u32 = 2; const F_AUTH: u32 = 3; const F_NOPE: u32 = 4;
 const F_FORWARD: u32 = 10; const F_APPROVE: u32 = 11; const F_ENABLE: u32 = 12; const F_DISABLE: u32 = 13; const F_SWEEP: u32 = 14;
@@ -136,7 +141,7 @@ fn call_coq(c: &Call) -> String {
 struct TokObs { total: i128, bal: Vec<i128>, alw: Vec<Vec<(i128, u32)>> }
 #[derive(Clone, Default)]
 struct Obs { now: u32, toks: Vec<TokObs>, count: u32, en: Vec<Option<usize>>, past: Option<usize>, idx: Vec<Option<u32>>, allowed: Vec<bool>,
-             flcount: u32, logs: Vec<Vec<(u32, Vec<At>)>> }
+             flcount: u32, logs: Vec<Vec<(u32, Vec<At>)>>, exec: Vec<bool>, mgr: Vec<bool> }
 impl Obs {
     fn coq(&self) -> String {
         let toks: Vec<String> = self.toks.iter().map(|t| {
@@ -149,8 +154,10 @@ impl Obs {
         let idx: Vec<String> = self.idx.iter().map(|o| opt(o.map(|i| n(i as u64)))).collect();
         let al: Vec<String> = self.allowed.iter().map(|x| b(*x)).collect();
         let logs: Vec<String> = self.logs.iter().map(|l| list(&l.iter().map(|(f, a)| pair(&n(*f as u64), &ats_coq(a))).collect::<Vec<_>>())).collect();
-        format!("Ob {} {} {} {} {} {} {} {} {}", self.now, list(&toks), n(self.count as u64), list(&en), oa(&self.past), list(&idx), list(&al),
-                n(self.flcount as u64), list(&logs))
+        let ex: Vec<String> = self.exec.iter().map(|x| b(*x)).collect();
+        let mg: Vec<String> = self.mgr.iter().map(|x| b(*x)).collect();
+        format!("Ob {} {} {} {} {} {} {} {} {} {} {}", self.now, list(&toks), n(self.count as u64), list(&en), oa(&self.past), list(&idx), list(&al),
+                n(self.flcount as u64), list(&logs), list(&ex), list(&mg))
     }
     fn bal(&self, tok: usize, h: usize) -> i128 {
         let ti = TOKENS.iter().position(|&t| t == tok); let hi = HOLDERS.iter().position(|&x| x == h);
@@ -163,16 +170,24 @@ impl Obs {
     fn enumerated(&self) -> Vec<usize> { self.en.iter().filter_map(|x| *x).collect() }
 }
 
-struct World { e: Env, addr: Vec<Address>, obs: Obs, items: Vec<String>, obs0: String, min_temp: u32, dead: bool }
+/// reads a contract-data key from persistent, temporary or instance storage, whichever holds it
+fn get_any<V: soroban_sdk::TryFromVal<Env, Val>>(e: &Env, k: &FeeAbstractionStorageKey) -> Option<V> {
+    if let Some(v) = e.storage().persistent().get::<_, V>(k) { return Some(v); }
+    if let Some(v) = e.storage().temporary().get::<_, V>(k) { return Some(v); }
+    e.storage().instance().get::<_, V>(k)
+}
+
+struct World { e: Env, addr: Vec<Address>, obs: Obs, items: Vec<String>, obs0: String, min_temp: u32, max_ttl: u32, dead: bool }
 
 impl World {
     fn new() -> World { World::with_min_temp(1) }
     /// `min_temp` = the host's min_temp_entry_ttl (1 as C07 prescribes; 16 = second configuration)
     fn with_min_temp(min_temp: u32) -> World {
+        let (min_temp, min_pers, max_ttl) = if min_temp == 1 { HOST_A } else { HOST_B };
         let e = Env::default();
         e.cost_estimate().budget().reset_unlimited();
         e.cost_estimate().disable_resource_limits();
-        e.ledger().with_mut(|l| { l.sequence_number = START; l.min_temp_entry_ttl = min_temp; l.min_persistent_entry_ttl = 600_000; l.max_entry_ttl = MAX_TTL; });
+        e.ledger().with_mut(|l| { l.sequence_number = START; l.min_temp_entry_ttl = min_temp; l.min_persistent_entry_ttl = min_pers; l.max_entry_ttl = max_ttl; });
         let mut addr: Vec<Address> = (0..NADDR).map(|_| Address::generate(&e)).collect();
         let execs: SVec<Address> = SVec::from_array(&e, [addr[R1].clone(), addr[U2].clone()]);
         addr[FP] = e.register(pd::contract::FeeForwarder, (addr[ADM].clone(), addr[M].clone(), execs));
@@ -180,7 +195,7 @@ impl World {
         for t in TOKENS { addr[t] = e.register(tok::FeeToken, ()); }
         for t in TARGETS { addr[t] = e.register(target::Target, ()); }
         e.set_auths(&[]);
-        let mut w = World { e, addr, obs: Obs::default(), items: vec![], obs0: String::new(), min_temp, dead: false };
+        let mut w = World { e, addr, obs: Obs::default(), items: vec![], obs0: String::new(), min_temp, max_ttl, dead: false };
         w.obs = w.observe();
         w.obs0 = w.obs.coq();
         w
@@ -220,19 +235,26 @@ impl World {
             o.toks.push(to);
         }
         e.as_contract(&self.addr[FP], || {
-            o.count = e.storage().instance().get(&FeeAbstractionStorageKey::Count).unwrap_or(0u32);
-            for i in 0..o.count {
-                let a: Option<Address> = e.storage().persistent().get(&FeeAbstractionStorageKey::Token(i));
+            // raw reads of the registry keys, in whichever storage class the code keeps them (there is no public
+            // getter for them): a change of storage class alone is not reported, a lapsed entry is
+            o.count = get_any::<u32>(e, &FeeAbstractionStorageKey::Count).unwrap_or(0u32);
+            for i in 0..o.count.min(64) {
+                let a: Option<Address> = get_any(e, &FeeAbstractionStorageKey::Token(i));
                 o.en.push(a.map(|a| self.idx_of(&a).unwrap_or(99)));
             }
-            let a: Option<Address> = e.storage().persistent().get(&FeeAbstractionStorageKey::Token(o.count));
+            let a: Option<Address> = get_any(e, &FeeAbstractionStorageKey::Token(o.count));
             o.past = a.map(|a| self.idx_of(&a).unwrap_or(99));
             for c in CANDS {
-                o.idx.push(e.storage().persistent().get(&FeeAbstractionStorageKey::TokenIndex(self.addr[c].clone())));
+                o.idx.push(get_any::<u32>(e, &FeeAbstractionStorageKey::TokenIndex(self.addr[c].clone())));
                 o.allowed.push(is_allowed_fee_token(e, &self.addr[c]));
             }
+            // roles of the permissioned forwarder, through the real access-control getter
+            for h in HOLDERS {
+                o.exec.push(stellar_access::access_control::has_role(e, &self.addr[h], &Symbol::new(e, "executor")).is_some());
+                o.mgr.push(stellar_access::access_control::has_role(e, &self.addr[h], &Symbol::new(e, "manager")).is_some());
+            }
         });
-        o.flcount = e.as_contract(&self.addr[FL], || e.storage().instance().get(&FeeAbstractionStorageKey::Count).unwrap_or(0u32));
+        o.flcount = e.as_contract(&self.addr[FL], || get_any::<u32>(e, &FeeAbstractionStorageKey::Count).unwrap_or(0u32));
         for t in TARGETS {
             let l: SVec<target::Ent> = e.as_contract(&self.addr[t], || e.storage().instance().get(&soroban_sdk::symbol_short!("log")).unwrap_or(SVec::new(e)));
             o.logs.push(l.iter().map(|en| {
@@ -318,7 +340,7 @@ impl World {
         r
     }
     fn finish(self, out: &mut Out, desc: &str) {
-        let cfg = format!("Cf {} {} {} {} {} {} {} {} {} {} {} {} {}", self.min_temp, MAX_TTL, START, n(FP as u64), n(FL as u64), nl(&EXECUTORS), nl(&MANAGERS), nl(&TOKENS), nl(&TARGETS),
+        let cfg = format!("Cf {} {} {} {} {} {} {} {} {} {} {} {} {}", self.min_temp, self.max_ttl, START, n(FP as u64), n(FL as u64), nl(&EXECUTORS), nl(&MANAGERS), nl(&TOKENS), nl(&TARGETS),
                           nl(&HOLDERS), nl(&OWNERS), nl(&SPENDERS), nl(&CANDS));
         let k = self.items.len();
         out.trace(desc, format!("({}, {}, {})", cfg, self.obs0, list(&self.items)), k);
@@ -475,7 +497,7 @@ impl Gen {
         let mut f = self.base_fwd(w);
         let mut tags: Vec<String> = vec![];
         let now = w.obs.now;
-        let maxlive = now + MAX_TTL - 1;
+        let maxlive = now + w.max_ttl - 1;
         let p = self.rng.below(100);
         let mut auth_pert: Option<u64> = None;
         if p < 38 { tags.push("fwd:plain".into()); }
@@ -546,7 +568,7 @@ impl Gen {
         let owner = *rng.pick(&OWNERS);
         let spender = if rng.chance(9, 10) { *rng.pick(&SPENDERS) } else { *rng.pick(&[R1, X]) };
         let amt = match rng.below(8) { 0 => 0, 1 => -1, 2 => i128::MAX, _ => rng.range(1, 500) as i128 };
-        let exp = match rng.below(10) { 0 => now.wrapping_sub(1), 1 => now, 2 => now + MAX_TTL - 1, 3 => now + MAX_TTL, 4 => 0, _ => now + rng.below(60) as u32 };
+        let exp = match rng.below(10) { 0 => now.wrapping_sub(1), 1 => now, 2 => now + w.max_ttl - 1, 3 => now + w.max_ttl, 4 => 0, 5 => now + *rng.pick(&[20_000u32, 700_000, 4_500_000]), _ => now + rng.below(60) as u32 };
         let mut au = vec![Entry { who: owner, root: approve_fn(tok, owner, spender, amt, exp), subs: vec![] }];
         let mut tags = vec![];
         match rng.below(12) {
@@ -608,6 +630,7 @@ impl Gen {
             for t in &w.obs.toks { for r in &t.alw { for &(a, l) in r { if a > 0 && l >= w.obs.now && l - w.obs.now < 5000 { ls.push(l); } } } }
             if !ls.is_empty() { let l = *rng.pick(&ls); let d = l - w.obs.now + rng.below(2) as u32; return Call::Advance(d); }
         }
+        if rng.chance(1, 5) && w.obs.now < 40_000_000 { return Call::Advance(*rng.pick(&LONG_GAPS)); }
         Call::Advance(match rng.below(8) { 0 => 0, 1 => 1, 2 => 2, 3 => rng.below(60) as u32, 4 => rng.below(3000) as u32, _ => rng.below(10) as u32 })
     }
 }
@@ -697,7 +720,7 @@ fn corpus(out: &mut Out) {
         for (fee, max) in [(0i128, 5i128), (-1, 5), (6, 5), (5, 5), (1, 1), (0, 0), (-2, -2), (i128::MAX, i128::MAX), (i128::MIN, 5)] {
             let g = Fwd { f: F_HIT, fee, max, ..f.clone() }; w.run(out, &g.call(g.good_auths()), &t("corpus:fee-bounds"));
         }
-        for exp in [START - 1, START, START + 1, 0, START + MAX_TTL - 1, START + MAX_TTL, u32::MAX] {
+        for exp in [START - 1, START, START + 1, 0, START + w.max_ttl - 1, START + w.max_ttl, u32::MAX] {
             let g = Fwd { f: F_HIT, exp, ..f.clone() }; w.run(out, &g.call(g.good_auths()), &t("corpus:exp-bounds"));
         }
         w.finish(out, "corpus-targets-alias-bounds");
@@ -740,6 +763,34 @@ fn corpus(out: &mut Out) {
         w.run(out, &Call::Advance(14), &[]);
         w.run(out, &Call::Advance(30), &[]);
         w.finish(out, &format!("corpus-temp-ttl-{}", mt));
+    }
+    // 3d. persistence: every kind of stored item must survive ONE long ledger advance during which nobody reads it
+    //     (balances, supply, allow-list count / entries / indices, roles, target logs; allowances up to live_until)
+    for mt in [1u32, 16] {
+        for gap in LONG_GAPS {
+            let mut w = World::with_min_temp(mt);
+            w.run(out, &Call::Mint { tok: T1, to: U1, amt: 1000 }, &[]);
+            w.run(out, &Call::Mint { tok: T2, to: U2, amt: 500 }, &[]);
+            for (al, tk) in [(true, T1), (true, T2), (true, T3), (false, T2)] { w.run(out, &Call::SetTok { allowed: al, tok: tk, operator: M, au: manager_auth(al, tk) }, &[]); }
+            let long = START + 5_000_000;
+            w.run(out, &Call::Approve { tok: T1, owner: U1, spender: FP, amt: 300, exp: long, au: owner_auth(T1, U1, FP, 300, long) }, &[]);
+            w.run(out, &Call::Approve { tok: T1, owner: U1, spender: FL, amt: 200, exp: START + gap, au: owner_auth(T1, U1, FL, 200, START + gap) }, &[]);
+            w.run(out, &Call::Approve { tok: T2, owner: U2, spender: FL, amt: 77, exp: START + gap - 1, au: owner_auth(T2, U2, FL, 77, START + gap - 1) }, &[]);
+            let f = Fwd { pd: true, tok: T1, fee: 10, max: 20, exp: long, target: TA, f: F_HIT, args: vec![At::I(1)], user: U1, relayer: R1 };
+            let mut nosub = f.good_auths(); for en in nosub.iter_mut() { en.subs.clear(); }
+            w.run(out, &f.call(nosub.clone()), &t("persist:before"));
+            w.run(out, &Call::Advance(gap), &t(&format!("persist:gap-{}", gap)));
+            // everything is still there: roles (executor R1, manager M), list = {T1, T3}, allowance, balances
+            w.run(out, &f.call(nosub.clone()), &t("persist:forward-pd-after"));
+            let g = Fwd { pd: true, tok: T2, ..f.clone() }; w.run(out, &g.call(g.good_auths()), &t("persist:removed-token-after"));
+            let g = Fwd { pd: false, exp: START + gap + 50, user: U1, ..f.clone() }; w.run(out, &g.call(g.good_auths()), &t("persist:forward-pl-after"));
+            w.run(out, &Call::SetTok { allowed: false, tok: T1, operator: M, au: manager_auth(false, T1) }, &t("persist:disable-after"));
+            w.run(out, &Call::SetTok { allowed: true, tok: T2, operator: M, au: manager_auth(true, T2) }, &t("persist:enable-after"));
+            w.run(out, &Call::Sweep { tok: T1, recipient: X, operator: M, au: vec![Entry { who: M, root: Func { c: FP, f: F_SWEEP, args: vec![V::A(T1), V::A(X), V::A(M)] }, subs: vec![] }] }, &t("persist:sweep-after"));
+            w.run(out, &Call::Advance(gap), &t(&format!("persist:gap-{}", gap)));
+            let g = Fwd { pd: true, tok: T2, user: U2, fee: 3, max: 5, exp: START + 2 * gap + 10, ..f.clone() }; w.run(out, &g.call(g.good_auths()), &t("persist:forward-pd-after2"));
+            w.finish(out, &format!("corpus-persistence-{}-{}", mt, gap));
+        }
     }
     // 4. allow-list histories (swap-and-pop) and token acceptance
     {
